@@ -33,7 +33,7 @@ META = {
     "rule": (
         "operation catalogue (shape / join / split / select / index / reduce / linalg / mirror "
         "entries plus construct, ring, derivative/gradient/hessian, call by keyword, align_*, "
-        "pickle, lead_*, compare, divmod) x option settings (quick: pairwise-covering set of the "
+        "pickle, lead_*, compare, poly_divmod with / and %) x option settings (quick: pairwise-covering set of the "
         "eight boolean options + the four retain combinations + display strings; thorough: all 256 "
         "settings reachable) x C01 inputs: each case is executed under defaults and under the "
         "setting; model value (by name), shape and dtype must agree and the setting must not make "
@@ -44,9 +44,13 @@ META = {
     "assumptions": ["which zero terms / unused names are kept is not compared (that is what the "
                     "retain options legitimately change)"],
     "min_evaluations": {"quick": 6000, "thorough": 200000},
+    "required_counters": ["op_" + name for name in ("construct", "ring", "derivative", "call", "align", "pickle", "lead", "compare", "poly_divmod", "getset", "program", "finite")],
 }
-EXTRA_OPS = ["construct", "ring", "derivative", "call", "align", "pickle", "lead", "compare", "divmod",
-             "getset", "program", "program", "finite"]
+EXTRA_OPS = ["construct", "ring", "derivative", "call", "align", "pickle", "lead", "compare", "poly_divmod",
+             "getset", "program", "program", "finite", "poly_divmod", "poly_divmod", "poly_divmod"]
+
+
+assert not set(EXTRA_OPS) & set(C.OPS), "extra operation names must not shadow catalogue entries"
 
 
 def shards(tier, seed):
@@ -128,8 +132,8 @@ def gen_extra(g, name):
                 lambda v: G.jnum(rng.choice([float("nan"), float("inf"), float("-inf")])),
                 a["coefs"][k])
         case["operands"] = [a, b]
-    if name == "divmod":
-        names = rng.choice([["q0"], ["q0", "q1"]])
+    if name == "poly_divmod":
+        names = rng.choice([["q0"], ["q0", "q1"], ["q0", "q1"], ["q0", "q1", "q2"]])
         case["operands"] = [
             g.poly(shape=shape, names=names, kind=kind, nterms=3, maxexp=3, allow_views=False),
             g.poly(shape=(), names=names, kind=kind, nterms=2, maxexp=2, allow_views=False)]
@@ -176,8 +180,8 @@ def run_extra(case, real):
                 numpoly.sortable_proxy(a, graded=True), a.isconstant(), numpoly.decompose(a))
     if name == "compare":
         return a < b, a >= b, a == b, a != b, numpoly.maximum(a, b), numpoly.minimum(a, b)
-    if name == "divmod":
-        return numpoly.poly_divmod(a, b)
+    if name == "poly_divmod":
+        return numpoly.poly_divmod(a, b), a / b, a % b
     if name == "program":
         # whole programs executed inside the option block: everything, including the
         # indeterminates, is created under the setting
@@ -289,12 +293,12 @@ def run_case(case, ctx):
     changed = {k: v for k, v in setting.items() if defaults.get(k) != v}
     if name in ORDER_BASED and any(k in changed for k in SORT_OPTIONS):
         setting = {k: v for k, v in setting.items() if k not in SORT_OPTIONS}
-    if name == "divmod":
+    if name == "poly_divmod":
         setting = {k: v for k, v in setting.items() if k not in RETAIN_OPTIONS}
     changed = {k: v for k, v in setting.items() if defaults.get(k) != v}
     specs = case["operands"]
     exact = all(G.spec_features(s)["coef"] in ("int", "int64", "bool") for s in specs) and \
-        name not in ("mean", "divmod", "call")
+        name not in ("mean", "divmod", "poly_divmod", "call")
     facts = {"op": name, "changed": ",".join(sorted(changed)),
              "retain_names": setting.get("retain_names", True),
              "retain_coefficients": setting.get("retain_coefficients", False)}
